@@ -37,3 +37,38 @@ package header
 //@   loop 2 invariant nextCalls == old(nextCalls) && hw == old(hw) && bodyWrites == old(bodyWrites)
 //@   loop 3 invariant nextCalls == old(nextCalls) && hw == old(hw) && bodyWrites == old(bodyWrites)
 //@   loop 4 invariant nextCalls == old(nextCalls) && hw == old(hw) && bodyWrites == old(bodyWrites)
+
+//@ unit header_wrapper frames=on props=C12,C09 filter=`header\.responseWriterWrapper\)\.(WriteHeader|Write|delHeader)$`
+//@ // C12 "exactly one well-formed response": the wrapper forwards the status line at most once (a second WriteHeader is
+//@ // swallowed), a body write forces it out first, and C09: every registered deletion runs on the header map BEFORE the
+//@ // status line goes out, each once, in registration order; a deletion is also carried out at once when it is registered
+//@ ghost fwdHeaders int
+//@ ghost opsRun int
+//@ ghost fwdWrites int
+//@ ghost delsNow int
+//@ extern invoke:(net/http.ResponseWriter).WriteHeader
+//@   modifies ghost:fwdHeaders
+//@   ensures fwdHeaders == old(fwdHeaders) + 1
+//@ extern invoke:(net/http.ResponseWriter).Write
+//@   modifies ghost:fwdWrites
+//@   ensures fwdWrites == old(fwdWrites) + 1
+//@ extern (net/http.Header).Del
+//@   modifies ghost:delsNow
+//@   ensures delsNow == old(delsNow) + 1
+//@ func (*responseWriterWrapper).Header
+//@   ensures result != nil
+//@ func (*responseWriterWrapper).WriteHeader
+//@   requires rww != nil && rww.ResponseWriterWrapper != nil
+//@   modifies responseWriterWrapper.wroteHeader, ghost:fwdHeaders, ghost:opsRun
+//@   at call dynamic#1 before [operations_run_before_the_status_line_goes_out] fwdHeaders == old(fwdHeaders) && callee == rww.ops[opsRun - old(opsRun)]
+//@   at call dynamic#1 do opsRun = opsRun + 1
+//@   ensures [status_line_forwarded_at_most_once] rww.wroteHeader && (old(rww.wroteHeader) ==> (fwdHeaders == old(fwdHeaders) && opsRun == old(opsRun))) && (!old(rww.wroteHeader) ==> (fwdHeaders == old(fwdHeaders) + 1 && opsRun == old(opsRun) + len(rww.ops)))
+//@   loop 1 invariant 0 <= #i && #i <= len(rww.ops) && opsRun == old(opsRun) + #i && fwdHeaders == old(fwdHeaders) && rww.wroteHeader && rww != nil && rww.ResponseWriterWrapper != nil
+//@ func (*responseWriterWrapper).Write
+//@   requires rww != nil && rww.ResponseWriterWrapper != nil
+//@   modifies responseWriterWrapper.wroteHeader, ghost:fwdHeaders, ghost:opsRun, ghost:fwdWrites
+//@   ensures [status_line_is_out_before_any_body_byte] rww.wroteHeader && fwdWrites == old(fwdWrites) + 1 && (old(rww.wroteHeader) ==> fwdHeaders == old(fwdHeaders)) && (!old(rww.wroteHeader) ==> fwdHeaders == old(fwdHeaders) + 1)
+//@ func (*responseWriterWrapper).delHeader
+//@   requires rww != nil && rww.ResponseWriterWrapper != nil
+//@   modifies responseWriterWrapper.ops, E:github.com/tmpim/casket/caskethttp/header.headerOperation, ghost:delsNow
+//@   ensures [deleted_now_and_armed_for_later] delsNow == old(delsNow) + 1 && len(rww.ops) == old(len(rww.ops)) + 1 && forall(k, 0, old(len(rww.ops)), rww.ops[k] == old(rww.ops[k]))
